@@ -1645,7 +1645,7 @@ namespace avel {
         #elif defined(AVEL_SSE2)
         auto v_bits = _mm_castps_si128(decay(v));
 
-        auto is_v_zero = _mm_cmpeq_epi32(v_bits, _mm_setzero_si128());
+        auto is_v_zero = _mm_castps_si128(_mm_cmpeq_ps(_mm_setzero_ps(), decay(v)));
 
         // Check if v is subnormal
         auto abs_mask = _mm_set1_epi32(float_sign_bit_mask_bits);
